@@ -275,6 +275,19 @@ def run(prog: Program) -> Results:
     from sa.rules import poslint
     poslint.check(prog, res, "R-C04-9")
     filter_in_search(prog, res, "R-C04-10")
+    loop_invariant_guards(prog, res, "R-C04-12")
+    # editing through a reference lands on the binding the resolver designates (shared with R-C10-5)
+    from sa.rules import c10 as _c10
+    _sub10 = _c10.run(prog)
+    _st10 = _sub10.rules.get("R-C10-5")
+    _r13 = res.rule("R-C04-13", "an edit that reaches a binding through references follows each alias in the scope chain of the place "
+                    "where the alias is defined, so it cannot land on an inner binding that merely shadows the name (shared with "
+                    "R-C10-5)", floor=6)
+    if _st10:
+        _r13.instances, _r13.obligations, _r13.discharged = _st10.instances, _st10.obligations, _st10.discharged
+    for _f in _sub10.findings:
+        if _f.rule == "R-C10-5":
+            res.add("R-C04-13", _f.key, _f.where, _f.message)
     search_then_insert(prog, res, "R-C04-8")
     from sa.rules import merge
     merge.check(prog, res, "R-C04-5", "R-C04-6")
@@ -393,3 +406,42 @@ def filter_in_search(prog: Program, res: Results, rid: str) -> None:
                             f"{f.key}: `{norm(d)[:70]}` takes the first binding with that name and `{norm(n)}` is tested afterwards: for "
                             f"`users = {{ … }}; users.defaultUserShell = \"zsh\";` the explicit binding is found, the attrpath family is "
                             f"overlooked, and `set users.defaultUserShell` writes into the neighbouring explicit set")
+
+
+def loop_invariant_guards(prog: Program, res: Results, rid: str) -> None:
+    """a walk that stops (`break`) or removes something under a test that cannot change between iterations tests a cursor that
+    is never advanced: it takes the same decision for every element"""
+    r = res.rule(rid, "a per-element decision depends on the element: in the edit closure no loop takes `break` or removes/deletes "
+                 "something under a test that mentions neither the loop variable nor anything assigned or mutated inside the loop "
+                 "(such a test is the same for every ancestor: one emptied level prunes all of them)", floor=15)
+    DESTR = {"remove", "pop", "clear"}
+    for f in prog.all_functions():
+        if not f.module.endswith(("cli/manipulations.py", "expressions/set.py", "expressions/scope.py")):
+            continue
+        for lp in walk_no_nested(f.node):
+            if not isinstance(lp, ast.For):
+                continue
+            r.instances += 1
+            lvars = {x.id for x in ast.walk(lp.target) if isinstance(x, ast.Name)}
+            assigned = {x.id for st in lp.body for x in ast.walk(st) if isinstance(x, ast.Name) and isinstance(x.ctx, ast.Store)}
+            dyn = lvars | assigned
+            bad = []
+            for st in lp.body:
+                if not isinstance(st, ast.If):
+                    continue
+                names = {x.id for x in ast.walk(st.test) if isinstance(x, ast.Name)}
+                if not names or (names & dyn):
+                    continue
+                acts = [x for b in (st.body, st.orelse) for y in b for x in ast.walk(y)
+                        if isinstance(x, (ast.Break, ast.Delete)) or (isinstance(x, ast.Call) and isinstance(x.func, ast.Attribute) and x.func.attr in DESTR)]
+                # the removal may also follow the `if … break` in the loop body
+                follows = [x for y in lp.body[lp.body.index(st) + 1:] for x in ast.walk(y)
+                           if isinstance(x, ast.Delete) or (isinstance(x, ast.Call) and isinstance(x.func, ast.Attribute) and x.func.attr in DESTR)]
+                if any(isinstance(x, ast.Break) for x in acts) and (follows or any(not isinstance(x, ast.Break) for x in acts)):
+                    bad.append(st)
+            r.ob(not bad, None if not bad else {"site": f.key, "tests": [norm(b.test)[:50] for b in bad]})
+            for b in bad:
+                res.add(rid, (f.key, "loop-invariant test decides a per-element removal", norm(b.test)[:40]), f.loc(b),
+                        f"{f.key}: `if {norm(b.test)[:50]}` is evaluated in every iteration but depends on nothing the loop changes: after "
+                        f"`rm services.nginx.enable` empties `nginx`, the walk also removes the root `services` although it still has other "
+                        f"children — the text (rendered from the order list) looks right, the next edit under `services` goes astray")
